@@ -4,6 +4,8 @@ import (
 	"encoding/json"
 	"fmt"
 	"math/big"
+	"strconv"
+	"strings"
 
 	"pipelined.dev/signal"
 	"verif/mc/core"
@@ -130,10 +132,112 @@ func unsignedAlphabet() []uint64 {
 	return r
 }
 
+// c16Light checks all 64 depths sequentially on a small alphabet (used after an order prefix
+// in a fresh process).
+func c16Light(report func(cs c16Case, fs []F)) int64 {
+	var n int64
+	sAlpha := []int64{-1 << 63, -1<<63 + 1, -1 << 40, -129, -128, -2, -1, 0, 1, 127, 128, 255, 256, 1 << 40, 1<<63 - 2, 1<<63 - 1}
+	uAlpha := []uint64{0, 1, 127, 128, 255, 256, 65535, 65536, 1 << 40, 1<<63 - 1, 1 << 63, 1<<63 + 1, ^uint64(0) - 1, ^uint64(0)}
+	for d := 1; d <= 64; d++ {
+		run := func(cs c16Case) {
+			n++
+			if fs := c16Run(cs); len(fs) > 0 {
+				report(cs, fs)
+			}
+		}
+		run(c16Case{Fn: "bounds", Depth: d})
+		for _, v := range sAlpha {
+			run(c16Case{Fn: "signed", Depth: d, Val: v})
+		}
+		for _, v := range uAlpha {
+			run(c16Case{Fn: "unsigned", Depth: d, UVal: v})
+		}
+	}
+	return n
+}
+
+// c16Touch calls every bit-depth function once at depth d (any uint8 value: also outside 1..64).
+func c16Touch(d int) {
+	b := signal.BitDepth(d)
+	b.MaxSignedValue()
+	b.MinSignedValue()
+	b.MaxUnsignedValue()
+	b.SignedValue(-5)
+	b.UnsignedValue(5)
+}
+
 func init() {
 	core.Register(&core.Prop{
 		ID: "C16", Level: "exploration", Design: "§5 C16",
+		Worker: func(c *core.Ctx, arg string) int {
+			// "order:a,b,c": in this fresh process use depths a, b, c first, then check every depth
+			res := &core.WorkerResult{CanaryOK: true}
+			var prefix []int
+			for _, p := range strings.Split(strings.TrimPrefix(arg, "order:"), ",") {
+				if v, err := strconv.Atoi(p); err == nil {
+					prefix = append(prefix, v)
+				}
+			}
+			for _, d := range prefix {
+				c16Touch(d)
+			}
+			res.Executions = c16Light(func(cs c16Case, fs []F) {
+				if len(res.Violations) < 5 {
+					raw, _ := json.Marshal(cs)
+					for _, f := range fs {
+						f.Key += "/after-order"
+						f.Msg = fmt.Sprintf("in a fresh process that first used the depths %v: %s", prefix, f.Msg)
+						res.Violations = append(res.Violations, core.WorkerViolation{Case: raw, Failure: f})
+					}
+				}
+			})
+			core.EmitWorkerResult(res)
+			return 0
+		},
 		Run: func(c *core.Ctx) {
+			// order of first use: fresh processes that touch a few depths first (also depths outside 1..64,
+			// which are legal uint8 values) and then check every depth
+			var jobs []core.WorkerJob
+			addJob := func(prefix ...int) {
+				var ps []string
+				for _, p := range prefix {
+					ps = append(ps, strconv.Itoa(p))
+				}
+				jobs = append(jobs, core.WorkerJob{Binary: "mc-shim", ID: "C16", Arg: "order:" + strings.Join(ps, ","), Env: []string{"VERIF_NO_EVIDENCE=1"}})
+			}
+			for d := 1; d <= 64; d++ {
+				for _, k := range []int{64, 128, 192} {
+					if d+k <= 255 {
+						addJob(d + k)
+					}
+				}
+			}
+			addJob(0)
+			coarse := []int{1, 8, 16, 17, 33, 48, 64}
+			if !c.Quick() {
+				coarse = []int{1, 2, 8, 15, 16, 17, 31, 32, 33, 47, 48, 49, 63, 64}
+			}
+			for _, a := range coarse {
+				for _, b := range coarse {
+					addJob(a, b)
+					for _, d := range coarse {
+						addJob(a, b, d)
+					}
+				}
+			}
+			var orderEvals int64
+			for i, out := range core.RunWorkers(jobs) {
+				if out.Err != nil {
+					c.InternalError("order worker %s: %v", jobs[i].Arg, out.Err)
+					continue
+				}
+				orderEvals += out.Res.Executions
+				for _, v := range out.Res.Violations {
+					c.Fail(v.Case, v.Failure)
+				}
+			}
+			c.Eval(orderEvals, orderEvals)
+			c.Set("fresh_process_order_prefixes", len(jobs))
 			sAlpha := boundaryAlphabet(64)
 			uAlpha := unsignedAlphabet()
 			c.ParallelFor(64, func(i int) {
@@ -190,7 +294,7 @@ func init() {
 			c.Sample(c16Case{Fn: "signed", Depth: 64, Val: -1 << 63})
 			c.Sample(c16Case{Fn: "scale", Depth: 64, Low: 1, Type: "uint64"})
 			c.Sample(c16Case{Fn: "bounds", Depth: 63})
-			c.Set("rule", "all 64 depths x (bounds; SignedValue over every int64 within +-3 of 0, +-2^k, +-1.5*2^k and the bounds; UnsignedValue over the unsigned analogue; a lattice of 2^14 values with an odd step across the whole 64-bit range; for depths <= 16 additionally every value in [-2^17, 2^17]) and Scale[T](h,l) for all pairs h>=l and all 11 integer types where 2^(h-l) fits T; oracle in math/big; each (function, depth, argument) enumerated once, all non-trivial")
+			c.Set("rule", "all 64 depths x (bounds; SignedValue over every int64 within +-3 of 0, +-2^k, +-1.5*2^k and the bounds; UnsignedValue over the unsigned analogue; a lattice of 2^14 values with an odd step across the whole 64-bit range; for depths <= 16 additionally every value in [-2^17, 2^17]) and Scale[T](h,l) for all pairs h>=l and all 11 integer types where 2^(h-l) fits T; oracle in math/big; each (function, depth, argument) enumerated once, all non-trivial; plus the order of first use: fresh processes that first touch one depth outside 1..64 (d+64, d+128, d+192 for every d) or every pair and triple of a coarse set of depths, then check all 64 depths")
 			c.Assume("64-bit arguments outside the alphabet are not covered")
 		},
 		RunCase: func(c *core.Ctx, raw json.RawMessage) []F { return c16Run(decode[c16Case](raw)) },
